@@ -52,7 +52,9 @@ func (n c18Num) json() json.Number {
 }
 
 var c18Nums = []c18Num{{Int: 0}, {Int: 1}, {Int: 10}, {Int: 999999}, {Int: 1000000}, {Int: 2500000}, {Int: 123456789}, {Neg: true, Int: 1}, {Neg: true, Int: 1, Frac: []int{5}},
-	{Frac: []int{5}}, {Frac: []int{0, 0, 0, 1}}, {Frac: []int{0, 0, 0, 0, 1}}, {Int: 12, Frac: []int{2, 5}}, {Neg: true, Int: 1000000}, {Int: 99999, Frac: []int{9}}, {Int: 42}, {Int: 7, Frac: []int{0, 1}}}
+	{Frac: []int{5}}, {Frac: []int{0, 0, 0, 1}}, {Frac: []int{0, 0, 0, 0, 1}}, {Int: 12, Frac: []int{2, 5}}, {Neg: true, Int: 1000000}, {Int: 99999, Frac: []int{9}}, {Int: 42}, {Int: 7, Frac: []int{0, 1}},
+	// more than six fractional digits
+	{Int: 179, Frac: []int{9, 9, 9, 9, 9, 9, 9}}, {Frac: []int{3, 3, 3, 3, 3, 3, 3, 3, 3, 3}}, {Frac: []int{0, 0, 0, 1, 2, 3, 4, 5, 6, 7}}}
 
 // normDef reduces a definition to what the property compares.
 func normDef(v interface{}, defs map[string]interface{}, original map[string]bool, depth int) interface{} {
